@@ -152,6 +152,8 @@ TECHNIQUE = TECHNIQUE + "; encapsulation inventory on rustc's effective visibili
 def run(ctx, report):
     _run_rules(ctx, report)
     from .. import shared as _S
+    for config in ctx.configs:
+        report.guard("C04.BUILD", _S.chaining, ctx, report, "C04.BUILD", ctx.facts(config), config, [('with', 'add'), ('with_batch', 'add_batch'), ('with_thread_local', 'add_thread_local')])
     report.guard("C04.CONFIGS", _S.configurations, ctx, report, "C04.CONFIGS")
     for config in ctx.configs:
         report.guard("C04.ENCAPSULATED", _S.encapsulated, ctx, report, "C04.ENCAPSULATED", ctx.facts(config), config, "C04")
